@@ -324,6 +324,8 @@ SCALARS = {
     "timedelta": ("datetime.timedelta", datetime.timedelta, gen_timedelta),
 }
 SCALAR_NAMES = list(SCALARS)
+# `None` as a member type in its own right (`tuple[int, None]`): only where a workload asks for it (Opts.none_members)
+SCALARS["None"] = ("None", type(None), lambda r: None)
 HASHABLE_KEY_SCALARS = ["str", "int", "bool", "float", "Decimal", "Fraction", "UUID", "PurePosixPath", "date", "datetime", "time", "timedelta"]
 
 COLL_CTORS = {
@@ -374,6 +376,7 @@ class Opts:
         self.flavours = list(STRUCT_FLAVOURS)
         self.share_prob = 0.25  # probability to reuse an already generated sub-spec (sharing / diamonds)
         self.qualifiers_on_fields = True
+        self.none_members = False  # fixed tuples may hold a bare `None` member (at any position)
         self.__dict__.update(kw)
 
     def but(self, **kw):
@@ -466,6 +469,8 @@ class Gen:
         rng = self.rng
         n = rng.randrange(1, 5)
         elems = [self.type(depth - 1, hashable=hashable) for _ in range(n)]
+        if self.opts.none_members and rng.random() < 0.25:
+            elems[rng.randrange(len(elems))] = self.prog.spec("scalar", "None", name="None", cls=type(None))
         ctor = rng.choice(["tuple", "tuple", "typing.Tuple"])
         src = f"{ctor}[{', '.join(e.src for e in elems)}]"
         return self.prog.spec("fixed", src, elems, ctor=ctor)
